@@ -553,7 +553,7 @@ func runC10(res *Result, rng *RNG, tier string, outDir string) {
 	res.Rule = "three streams, every case run through the whole pipeline (Unmarshal, String, Code, RevocationIds, GetBlockID, Serialize, CreateBlock+Append, Seal, AuthorizerFor, a fixed authorizer panel, Authorize, Query) in a WORKER PROCESS (a panic on a library-owned goroutine cannot be recovered): (1) raw byte strings: random, truncations and bit flips of valid tokens; (2) schema-valid messages with adversarial field values generated from the schema (symbol indexes 28, 1023, 2^31, 2^32, 2^63, 2^64-1; variables in facts; empty / heterogeneous / nested sets and sets of bytes; ill-formed operator sequences; operators without kind or with unknown kind; terms without member; versions 0,2,4,absent; duplicate and non-UTF-8 symbols; next secrets of length 0,3,31,33,64), VALIDLY SIGNED by an attacker root key so that evaluation is reached — half of them wild (many adversarial values at once), half SINGLE-FAULT: a valid block with exactly one fault (string / variable / predicate-name index out of range at a random position, a join through a repeated variable or a body constant over every value type incl. byte arrays and sets, an ill-formed operator sequence, a malformed term or set, a variable in a fact, an invalid rule followed by a failing expression, arithmetic at the 64-bit boundary, a regular expression, a defective symbol table, an unsupported version) so that every stage up to the one concerned is passed; (3) envelope mutations of library-built tokens. Oracle: no stage may panic or kill the worker. The Coq model predicts the class of every stage (unmarshal error class, verification, verdict, world, query result). Non-trivial = the input reaches block decoding (streams 2,3) ; distinct by input bytes."
 	nAdv, nRaw := 260, 120
 	if tier == "thorough" {
-		nAdv, nRaw = 3000, 1200
+		nAdv, nRaw = 9000, 3000
 	}
 	var inputs []advToken
 	inputs = append(inputs, genAdversarial(rng.Fork(), nAdv)...)
